@@ -262,7 +262,14 @@ def expand_harnesses(o, hidx):
 
 def limit_mem(gb):
     def f():
-        os.setsid()  # own process group so that a timeout kills cargo-kani's children too (no RLIMIT_AS: CBMC's virtual size is not its RSS)
+        os.setsid()  # own process group so that a timeout kills cargo-kani's children too
+        # a runaway CBMC (one graph harness grew to 65 GB and was OOM-killed by the kernel) must fail by itself
+        # (-> "out of memory" -> UNDECIDED) instead of taking the machine down: cap the address space per process
+        lim = int(os.environ.get("AMV_AS_LIMIT_GB", "44")) << 30
+        try:
+            resource.setrlimit(resource.RLIMIT_AS, (lim, lim))
+        except Exception:
+            pass
     return f
 
 
@@ -728,6 +735,10 @@ def main():
                     undecided.append((o, "unwinding bound too small: " + "; ".join(fc["msg"] for fc in fcs[:3]))); continue
                 if not fcs:
                     undecided.append((o, "FAILED without a failed check: " + r["text"][-300:])); continue
+                if any(fc["msg"].strip() == "assertion" for fc in fcs):
+                    # unnamed CBMC assertion = `missing_definition` (a function body CBMC does not have, e.g. dyn Any::type_id
+                    # under -Z restrict-vtable): a tool limit, never a violation. Every assertion of ours carries a message.
+                    undecided.append((o, "unnamed CBMC assertion (missing_definition): tool limit")); continue
                 kh = match_known(known, prop, o["id"], fcs)
                 if kh:
                     known_hits.append((o, kh))
